@@ -402,7 +402,7 @@ FUNC_STAGE = [
     ("apply_time_period_representation", None, "SFetchRepr"),
     ("_build_dataset_fetch_select", None, "SFetchSelect"),
     ("save_datapoints_duckdb", "DROP TABLE", "SDrop"), ("save_datapoints_duckdb", None, "SSave"),
-    ("fetch_result", None, "SFetchSelect"),
+    ("_fetch_result_impl", None, "SFetchSelect"), ("fetch_result", None, "SFetchSelect"),
     ("_normalize_time_period_columns", None, "SLoadNormalize"),
     ("validate_no_duplicates", None, "SLoadValidate"), ("validate_temporal_columns", None, "SLoadValidate"),
     ("_validate_loaded_table", "DROP TABLE", "SDrop"), ("_validate_loaded_table", None, "SLoadValidate"),
@@ -708,7 +708,7 @@ def run(ctx):
     tmp_root = Path(tempfile.mkdtemp(prefix="c32_"))
     results: List[dict] = []
     cases = gen_cases(ctx.rng, ctx.tier)
-    n_corpus = 80 if ctx.tier == "quick" else None
+    n_corpus = 60 if ctx.tier == "quick" else None
     ccases = corpus_cases(ctx.rng, n_corpus)
     stored = load_stored()
     ctx.log(f"K: {len(cases)} generated cases, {len(ccases)} corpus scripts, {len(stored)} stored cases, {len(config_cases())} configurations")
